@@ -2,6 +2,8 @@ import Driver.Util
 import Driver.Vec
 import Driver.Queue
 import Driver.PubSub
+import Driver.Lifecycle
+import Driver.ServiceLife
 import Driver.RelPtr
 import Driver.ReqRes
 import Driver.WaitSet
@@ -44,6 +46,8 @@ def components : List (String × Comp) := [
   ("vec", VecD.comp),
   ("queue", QueueD.comp),
   ("pubsub", PubSubD.comp),
+  ("lifecycle", LifecycleD.comp),
+  ("svclife", ServiceLifeD.comp),
   ("relptr", RelPtrD.comp),
   ("reqres", ReqResD.comp),
   ("waitset", WaitSetD.comp),
